@@ -23,6 +23,15 @@ import (
 	"strings"
 )
 
+// encodeMembers renders members as a RESP array of bulk strings (an empty list is "*0\r\n").
+func encodeMembers(members []string) []byte {
+	res := fmt.Sprintf("*%d\r\n", len(members))
+	for _, m := range members {
+		res += fmt.Sprintf("$%d\r\n%s\r\n", len(m), m)
+	}
+	return []byte(res)
+}
+
 func handleSADD(params internal.HandlerFuncParams) ([]byte, error) {
 	keys, err := saddKeyFunc(params.Command)
 	if err != nil {
@@ -105,15 +114,7 @@ func handleSDIFF(params internal.HandlerFuncParams) ([]byte, error) {
 	diff := baseSet.Subtract(sets)
 	elems := diff.GetAll()
 
-	res := fmt.Sprintf("*%d", len(elems))
-	for i, e := range elems {
-		res = fmt.Sprintf("%s\r\n$%d\r\n%s", res, len(e), e)
-		if i == len(elems)-1 {
-			res += "\r\n"
-		}
-	}
-
-	return []byte(res), nil
+	return encodeMembers(elems), nil
 }
 
 func handleSDIFFSTORE(params internal.HandlerFuncParams) ([]byte, error) {
@@ -185,15 +186,7 @@ func handleSINTER(params internal.HandlerFuncParams) ([]byte, error) {
 	intersect, _ := Intersection(0, sets...)
 	elems := intersect.GetAll()
 
-	res := fmt.Sprintf("*%d", len(elems))
-	for i, e := range elems {
-		res = fmt.Sprintf("%s\r\n$%d\r\n%s", res, len(e), e)
-		if i == len(elems)-1 {
-			res += "\r\n"
-		}
-	}
-
-	return []byte(res), nil
+	return encodeMembers(elems), nil
 }
 
 func handleSINTERCARD(params internal.HandlerFuncParams) ([]byte, error) {
@@ -325,15 +318,7 @@ func handleSMEMBERS(params internal.HandlerFuncParams) ([]byte, error) {
 
 	elems := set.GetAll()
 
-	res := fmt.Sprintf("*%d", len(elems))
-	for i, e := range elems {
-		res = fmt.Sprintf("%s\r\n$%d\r\n%s", res, len(e), e)
-		if i == len(elems)-1 {
-			res += "\r\n"
-		}
-	}
-
-	return []byte(res), nil
+	return encodeMembers(elems), nil
 }
 
 func handleSMISMEMBER(params internal.HandlerFuncParams) ([]byte, error) {
@@ -435,15 +420,7 @@ func handleSPOP(params internal.HandlerFuncParams) ([]byte, error) {
 
 	members := set.Pop(count)
 
-	res := fmt.Sprintf("*%d", len(members))
-	for i, m := range members {
-		res = fmt.Sprintf("%s\r\n$%d\r\n%s", res, len(m), m)
-		if i == len(members)-1 {
-			res += "\r\n"
-		}
-	}
-
-	return []byte(res), nil
+	return encodeMembers(members), nil
 }
 
 func handleSRANDMEMBER(params internal.HandlerFuncParams) ([]byte, error) {
@@ -475,15 +452,7 @@ func handleSRANDMEMBER(params internal.HandlerFuncParams) ([]byte, error) {
 
 	members := set.GetRandom(count)
 
-	res := fmt.Sprintf("*%d", len(members))
-	for i, m := range members {
-		res = fmt.Sprintf("%s\r\n$%d\r\n%s", res, len(m), m)
-		if i == len(members)-1 {
-			res += "\r\n"
-		}
-	}
-
-	return []byte(res), nil
+	return encodeMembers(members), nil
 }
 
 func handleSREM(params internal.HandlerFuncParams) ([]byte, error) {
@@ -529,15 +498,7 @@ func handleSUNION(params internal.HandlerFuncParams) ([]byte, error) {
 
 	union := Union(sets...)
 
-	res := fmt.Sprintf("*%d", union.Cardinality())
-	for i, e := range union.GetAll() {
-		res = fmt.Sprintf("%s\r\n$%d\r\n%s", res, len(e), e)
-		if i == len(union.GetAll())-1 {
-			res += "\r\n"
-		}
-	}
-
-	return []byte(res), nil
+	return encodeMembers(union.GetAll()), nil
 }
 
 func handleSUNIONSTORE(params internal.HandlerFuncParams) ([]byte, error) {
